@@ -4,6 +4,8 @@ step relation (Pywbem/Model/Listener.lean).  Three bundles:
   CtlInv  (fixed protocol): per-program-counter assertions of the main thread + global control facts
   DataInv (fixed protocol): conservation dlv ++ inflight ++ queue = enq and shape of the callback log
   UniqInv (both protocols): sequence-number bounds, freshness, per-sender order, ack bookkeeping
+  FullInv (both protocols): the _queue_full flag and its edge-triggered warnings
+plus the progress measure for "stop() can always return".  The model has two servers (HTTP, HTTPS).
 -/
 import Pywbem.Model.Listener
 open Pywbem.Model.Listener Pywbem.Proto
@@ -13,28 +15,36 @@ namespace Proofs.Listener
 def cbQuiet (s : Sys) : Prop := s.cb = .off ∨ s.cb = .done false
 
 /-- per-program-counter assertions of the main thread (fixed protocol) -/
-def MainOK (s : Sys) : Prop :=
+def MainOK (c : Cfg) (s : Sys) : Prop :=
   match s.main with
-  | .idle => (s.up = true → s.srv = true ∧ s.accepting = true) ∧
-             (s.up = false → s.thrRef = false ∧ s.qref = false ∧ s.srv = false ∧ s.queue = [])
-  | .sMkq => s.up = true ∧ s.thrRef = false ∧ s.qref = false ∧ s.srv = false ∧ s.queue = []
-  | .sThr => s.up = true ∧ s.qref = true ∧ s.thrRef = false ∧ s.srv = false
-  | .sSrv => s.up = true ∧ s.qref = true ∧ s.thrRef = true ∧ s.srv = false
+  | .idle => (s.up = true → s.qref = true ∧ s.thrRef = true ∧ (c.http = true → s.srv = true ∧ s.accepting = true) ∧
+                (c.https = true → s.srv2 = true ∧ s.accepting2 = true)) ∧
+             (s.up = false → s.thrRef = false ∧ s.qref = false ∧ s.srv = false ∧ s.srv2 = false ∧ s.queue = [])
+  | .sMkq => s.up = true ∧ s.thrRef = false ∧ s.qref = false ∧ s.srv = false ∧ s.srv2 = false ∧ s.queue = []
+  | .sThr => s.up = true ∧ s.qref = true ∧ s.thrRef = false ∧ s.srv = false ∧ s.srv2 = false
+  | .sSrv => s.up = true ∧ s.qref = true ∧ s.thrRef = true ∧ s.srv = false ∧ s.srv2 = false ∧ c.http = true
+  | .sSrv2 => s.up = true ∧ s.qref = true ∧ s.thrRef = true ∧ s.srv2 = false ∧ c.https = true ∧
+              (c.http = true → s.srv = true ∧ s.accepting = true)
   | .tShutdown => s.up = false ∧ s.srv = true
   | .tClose => s.up = false ∧ s.srv = true ∧ s.accepting = false
-  | .tPoll => s.up = false ∧ s.srv = false ∧ s.qref = true ∧ s.thrRef = true
-  | .tSetEv => s.up = false ∧ s.srv = false ∧ s.qref = true ∧ s.thrRef = true ∧ s.queue = []
-  | .tJoin => s.up = false ∧ s.srv = false ∧ s.qref = true ∧ s.thrRef = true ∧ s.queue = [] ∧ s.stopEv = true
+  | .tShutdown2 => s.up = false ∧ s.srv = false ∧ s.srv2 = true
+  | .tClose2 => s.up = false ∧ s.srv = false ∧ s.srv2 = true ∧ s.accepting2 = false
+  | .tPoll => s.up = false ∧ s.srv = false ∧ s.srv2 = false ∧ s.qref = true ∧ s.thrRef = true
+  | .tSetEv => s.up = false ∧ s.srv = false ∧ s.srv2 = false ∧ s.qref = true ∧ s.thrRef = true ∧ s.queue = []
+  | .tJoin => s.up = false ∧ s.srv = false ∧ s.srv2 = false ∧ s.qref = true ∧ s.thrRef = true ∧ s.queue = [] ∧
+              s.stopEv = true
 
-structure CtlInv (s : Sys) : Prop where
-  mainOK : MainOK s
+structure CtlInv (c : Cfg) (s : Sys) : Prop where
+  mainOK : MainOK c s
   noExc : s.cb ≠ .done true
   noErr : s.errs = []
   noIgn : s.ignored = []
   thr_q : s.thrRef = true → s.qref = true
   acc_srv : s.accepting = true → s.srv = true
-  srv_q : s.srv = true → s.qref = true ∧ s.thrRef = true
-  nosrv_idle : s.srv = false → allIdle s.senders = true
+  acc_srv2 : s.accepting2 = true → s.srv2 = true
+  srv_q : s.srv = true ∨ s.srv2 = true → s.qref = true ∧ s.thrRef = true
+  nosrv_idle : s.srv = false → idleOn false s.senders = true
+  nosrv2_idle : s.srv2 = false → idleOn true s.senders = true
   nothr_cb : s.thrRef = false → cbQuiet s
   evOff : s.stopEv = true → s.thrRef = false ∨ s.main = .tJoin
   thrAlive : s.thrRef = true → s.cb ≠ .off
@@ -46,11 +56,40 @@ theorem allIdle_get {l : List Sender} (h : allIdle l = true) {j : Nat} {sd : Sen
   simp [allIdle, List.all_eq_true] at h
   exact h sd hm
 
-theorem ctl_init (n : Nat) : CtlInv (init n) := by
-  refine ⟨?_, ?_, ?_, ?_, ?_, ?_, ?_, ?_, ?_, ?_, ?_, ?_⟩ <;> simp [init, MainOK, cbQuiet, allIdle]
+theorem idleOn_get {t : Bool} {l : List Sender} (h : idleOn t l = true) {j : Nat} {sd : Sender}
+    (hj : l[j]? = some sd) : sd.pc = .idle ∨ sd.tls ≠ t := by
+  have hm : sd ∈ l := List.mem_of_getElem? hj
+  simp [idleOn, List.all_eq_true] at h
+  exact h sd hm
 
-theorem ctl_start {c : Cfg} {s s' : Sys} (_hc : c.proto = .fixed) (h : CtlInv s) (hs : stepStart s = some s') : CtlInv s' := by
-  obtain ⟨m, a1, a2, a3, a4, a5, a6, a7, a8, a9, a10, a11⟩ := h
+theorem allIdle_of_idleOn {l : List Sender} (h1 : idleOn false l = true) (h2 : idleOn true l = true) :
+    allIdle l = true := by
+  simp [allIdle, idleOn, List.all_eq_true] at *
+  intro sd hsd
+  rcases h1 sd hsd with h | h
+  · exact h
+  · rcases h2 sd hsd with h' | h'
+    · exact h'
+    · cases ht : sd.tls <;> simp_all
+
+theorem idleOn_of_allIdle {t : Bool} {l : List Sender} (h : allIdle l = true) : idleOn t l = true := by
+  simp [allIdle, idleOn, List.all_eq_true] at *
+  intro sd hsd; exact Or.inl (h sd hsd)
+
+/-- updating sender `j` keeps "no handler of server `t`" when the new entry is idle or belongs to the other server -/
+theorem idleOn_set {t : Bool} {l : List Sender} (h : idleOn t l = true) (j : Nat) (sd' : Sender)
+    (h' : sd'.pc = .idle ∨ sd'.tls ≠ t) : idleOn t (l.set j sd') = true := by
+  simp [idleOn, List.all_eq_true] at *
+  intro x hx
+  rcases List.mem_or_eq_of_mem_set hx with hx | hx
+  · exact h x hx
+  · subst hx; exact h'
+
+theorem ctl_init (c : Cfg) (n : Nat) : CtlInv c (init n) := by
+  refine ⟨?_, ?_, ?_, ?_, ?_, ?_, ?_, ?_, ?_, ?_, ?_, ?_, ?_, ?_⟩ <;> simp [init, MainOK, cbQuiet, idleOn]
+
+theorem ctl_start {c : Cfg} {s s' : Sys} (_hc : c.proto = .fixed) (h : CtlInv c s) (hs : stepStart s = some s') : CtlInv c s' := by
+  obtain ⟨m, a1, a2, a3, a4, a5, a5', a6, a7, a7', a8, a9, a10, a11⟩ := h
   unfold stepStart at hs
   split at hs
   · rename_i hg
@@ -59,75 +98,108 @@ theorem ctl_start {c : Cfg} {s s' : Sys} (_hc : c.proto = .fixed) (h : CtlInv s)
     split at hs
     · simp_all
     · injection hs with hs; subst hs
-      refine ⟨?_, ?_, ?_, ?_, ?_, ?_, ?_, ?_, ?_, ?_, ?_, ?_⟩ <;> simp_all [MainOK, cbQuiet]
+      refine ⟨?_, ?_, ?_, ?_, ?_, ?_, ?_, ?_, ?_, ?_, ?_, ?_, ?_, ?_⟩ <;> simp_all [MainOK, cbQuiet]
   · simp at hs
-end Proofs.Listener
 
-namespace Proofs.Listener
-theorem ctl_stop {c : Cfg} {s s' : Sys} (hc : c.proto = .fixed) (h : CtlInv s) (hs : stepStop c s = some s') : CtlInv s' := by
-  obtain ⟨m, a1, a2, a3, a4, a5, a6, a7, a8, a9, a10, a11⟩ := h
+theorem ctl_stop {c : Cfg} {s s' : Sys} (hc : c.proto = .fixed) (h : CtlInv c s) (hs : stepStop c s = some s') : CtlInv c s' := by
+  obtain ⟨m, a1, a2, a3, a4, a5, a5', a6, a7, a7', a8, a9, a10, a11⟩ := h
   unfold stepStop at hs
   split at hs
   · rename_i hm
     simp [MainOK, hm] at m
     split at hs
     · injection hs with hs; subst hs
-      refine ⟨?_, ?_, ?_, ?_, ?_, ?_, ?_, ?_, ?_, ?_, ?_, ?_⟩ <;> simp_all [MainOK, cbQuiet]
+      refine ⟨?_, ?_, ?_, ?_, ?_, ?_, ?_, ?_, ?_, ?_, ?_, ?_, ?_, ?_⟩ <;> simp_all [MainOK, cbQuiet]
     · injection hs with hs; subst hs
       rename_i hsrv
       simp at hsrv
-      have hup : s.up = false := by
-        cases hu : s.up
-        · rfl
-        · have := (m.1 hu).1; simp_all
-      obtain ⟨h1, h2, h3, h4⟩ := m.2 hup
-      refine ⟨?_, ?_, ?_, ?_, ?_, ?_, ?_, ?_, ?_, ?_, ?_, ?_⟩ <;> simp_all [MainOK, cbQuiet, afterServers, afterQ]
+      cases hu : s.up
+      · obtain ⟨h1, h2, h3, h4, h5⟩ := m.2 hu
+        refine ⟨?_, ?_, ?_, ?_, ?_, ?_, ?_, ?_, ?_, ?_, ?_, ?_, ?_, ?_⟩ <;>
+          simp_all [MainOK, cbQuiet, stopHttps, afterServers, afterQ]
+      · obtain ⟨h1, h2, _, _⟩ := m.1 hu
+        unfold stopHttps
+        split
+        · refine ⟨?_, ?_, ?_, ?_, ?_, ?_, ?_, ?_, ?_, ?_, ?_, ?_, ?_, ?_⟩ <;> simp_all [MainOK, cbQuiet]
+        · refine ⟨?_, ?_, ?_, ?_, ?_, ?_, ?_, ?_, ?_, ?_, ?_, ?_, ?_, ?_⟩ <;>
+            simp_all [MainOK, cbQuiet, afterServers, afterQ]
   · simp at hs
 
-theorem ctl_main {c : Cfg} {s s' : Sys} (hc : c.proto = .fixed) (h : CtlInv s) (hs : stepMain c s = some s') : CtlInv s' := by
-  obtain ⟨m, a1, a2, a3, a4, a5, a6, a7, a8, a9, a10, a11⟩ := h
+
+theorem ctl_main {c : Cfg} {s s' : Sys} (hc : c.proto = .fixed) (h : CtlInv c s) (hs : stepMain c s = some s') : CtlInv c s' := by
+  obtain ⟨m, a1, a2, a3, a4, a5, a5', a6, a7, a7', a8, a9, a10, a11⟩ := h
   unfold stepMain at hs
   split at hs <;> rename_i hm <;> simp [MainOK, hm] at m
   · simp at hs
-  · injection hs with hs; subst hs
-    refine ⟨?_, ?_, ?_, ?_, ?_, ?_, ?_, ?_, ?_, ?_, ?_, ?_⟩ <;> simp_all [MainOK, cbQuiet]
-  · injection hs with hs; subst hs
-    refine ⟨?_, ?_, ?_, ?_, ?_, ?_, ?_, ?_, ?_, ?_, ?_, ?_⟩ <;> simp_all [MainOK, cbQuiet]
-  · injection hs with hs; subst hs
-    refine ⟨?_, ?_, ?_, ?_, ?_, ?_, ?_, ?_, ?_, ?_, ?_, ?_⟩ <;> simp_all [MainOK, cbQuiet]
-  · injection hs with hs; subst hs
-    refine ⟨?_, ?_, ?_, ?_, ?_, ?_, ?_, ?_, ?_, ?_, ?_, ?_⟩ <;> simp_all [MainOK, cbQuiet]
-  · split at hs
+  · -- sMkq
+    injection hs with hs; subst hs
+    refine ⟨?_, ?_, ?_, ?_, ?_, ?_, ?_, ?_, ?_, ?_, ?_, ?_, ?_, ?_⟩ <;> simp_all [MainOK, cbQuiet]
+  · -- sThr
+    injection hs with hs; subst hs
+    unfold startServers
+    split
+    · refine ⟨?_, ?_, ?_, ?_, ?_, ?_, ?_, ?_, ?_, ?_, ?_, ?_, ?_, ?_⟩ <;> simp_all [MainOK, cbQuiet]
+    · split
+      · refine ⟨?_, ?_, ?_, ?_, ?_, ?_, ?_, ?_, ?_, ?_, ?_, ?_, ?_, ?_⟩ <;> simp_all [MainOK, cbQuiet]
+      · refine ⟨?_, ?_, ?_, ?_, ?_, ?_, ?_, ?_, ?_, ?_, ?_, ?_, ?_, ?_⟩ <;> simp_all [MainOK, cbQuiet]
+  · -- sSrv
+    injection hs with hs; subst hs
+    split
+    · refine ⟨?_, ?_, ?_, ?_, ?_, ?_, ?_, ?_, ?_, ?_, ?_, ?_, ?_, ?_⟩ <;> simp_all [MainOK, cbQuiet]
+    · refine ⟨?_, ?_, ?_, ?_, ?_, ?_, ?_, ?_, ?_, ?_, ?_, ?_, ?_, ?_⟩ <;> simp_all [MainOK, cbQuiet]
+  · -- sSrv2
+    injection hs with hs; subst hs
+    refine ⟨?_, ?_, ?_, ?_, ?_, ?_, ?_, ?_, ?_, ?_, ?_, ?_, ?_, ?_⟩ <;> simp_all [MainOK, cbQuiet]
+  · -- tShutdown
+    injection hs with hs; subst hs
+    refine ⟨?_, ?_, ?_, ?_, ?_, ?_, ?_, ?_, ?_, ?_, ?_, ?_, ?_, ?_⟩ <;> simp_all [MainOK, cbQuiet]
+  · -- tClose
+    split at hs
     · injection hs with hs; subst hs
-      have := a6 m.2.1
-      refine ⟨?_, ?_, ?_, ?_, ?_, ?_, ?_, ?_, ?_, ?_, ?_, ?_⟩ <;> simp_all [MainOK, cbQuiet, afterServers]
+      rename_i hidle
+      have := a6 (Or.inl m.2.1)
+      unfold stopHttps
+      split
+      · refine ⟨?_, ?_, ?_, ?_, ?_, ?_, ?_, ?_, ?_, ?_, ?_, ?_, ?_, ?_⟩ <;> simp_all [MainOK, cbQuiet]
+      · refine ⟨?_, ?_, ?_, ?_, ?_, ?_, ?_, ?_, ?_, ?_, ?_, ?_, ?_, ?_⟩ <;> simp_all [MainOK, cbQuiet, afterServers]
     · simp at hs
-  · injection hs with hs; subst hs
+  · -- tShutdown2
+    injection hs with hs; subst hs
+    refine ⟨?_, ?_, ?_, ?_, ?_, ?_, ?_, ?_, ?_, ?_, ?_, ?_, ?_, ?_⟩ <;> simp_all [MainOK, cbQuiet]
+  · -- tClose2
+    split at hs
+    · injection hs with hs; subst hs
+      have := a6 (Or.inr m.2.2.1)
+      refine ⟨?_, ?_, ?_, ?_, ?_, ?_, ?_, ?_, ?_, ?_, ?_, ?_, ?_, ?_⟩ <;> simp_all [MainOK, cbQuiet, afterServers]
+    · simp at hs
+  · -- tPoll
+    injection hs with hs; subst hs
     unfold pollStep
     split
-    · refine ⟨?_, ?_, ?_, ?_, ?_, ?_, ?_, ?_, ?_, ?_, ?_, ?_⟩ <;> simp_all [MainOK, cbQuiet]
-    · refine ⟨?_, ?_, ?_, ?_, ?_, ?_, ?_, ?_, ?_, ?_, ?_, ?_⟩ <;> simp_all [MainOK, cbQuiet, afterQ]
-  · injection hs with hs; subst hs
-    refine ⟨?_, ?_, ?_, ?_, ?_, ?_, ?_, ?_, ?_, ?_, ?_, ?_⟩ <;> simp_all [MainOK, cbQuiet]
-  · split at hs
+    · refine ⟨?_, ?_, ?_, ?_, ?_, ?_, ?_, ?_, ?_, ?_, ?_, ?_, ?_, ?_⟩ <;> simp_all [MainOK, cbQuiet]
+    · refine ⟨?_, ?_, ?_, ?_, ?_, ?_, ?_, ?_, ?_, ?_, ?_, ?_, ?_, ?_⟩ <;> simp_all [MainOK, cbQuiet, afterQ]
+  · -- tSetEv
+    injection hs with hs; subst hs
+    refine ⟨?_, ?_, ?_, ?_, ?_, ?_, ?_, ?_, ?_, ?_, ?_, ?_, ?_, ?_⟩ <;> simp_all [MainOK, cbQuiet]
+  · -- tJoin
+    split at hs
     · injection hs with hs; subst hs
       rename_i exc hcb
       have : exc = false := by cases exc <;> simp_all
       subst this
-      refine ⟨?_, ?_, ?_, ?_, ?_, ?_, ?_, ?_, ?_, ?_, ?_, ?_⟩ <;> simp_all [MainOK, cbQuiet, joinStep]
+      refine ⟨?_, ?_, ?_, ?_, ?_, ?_, ?_, ?_, ?_, ?_, ?_, ?_, ?_, ?_⟩ <;> simp_all [MainOK, cbQuiet, joinStep]
     · simp at hs
-end Proofs.Listener
 
-namespace Proofs.Listener
-theorem mainOK_congr {s s' : Sys} (h : MainOK s) (h1 : s'.main = s.main) (h2 : s'.up = s.up) (h3 : s'.srv = s.srv)
-    (h4 : s'.accepting = s.accepting) (h5 : s'.thrRef = s.thrRef) (h6 : s'.qref = s.qref)
-    (h7 : s.queue = [] → s'.queue = []) (h8 : s'.stopEv = s.stopEv) : MainOK s' := by
+theorem mainOK_congr {c : Cfg} {s s' : Sys} (h : MainOK c s) (h1 : s'.main = s.main) (h2 : s'.up = s.up) (h3 : s'.srv = s.srv)
+    (h4 : s'.accepting = s.accepting) (h3' : s'.srv2 = s.srv2) (h4' : s'.accepting2 = s.accepting2)
+    (h5 : s'.thrRef = s.thrRef) (h6 : s'.qref = s.qref)
+    (h7 : s.queue = [] → s'.queue = []) (h8 : s'.stopEv = s.stopEv) : MainOK c s' := by
   unfold MainOK at h ⊢
-  rw [h1, h2, h3, h4, h5, h6, h8]
+  rw [h1, h2, h3, h4, h3', h4', h5, h6, h8]
   cases hm : s.main <;> simp [hm] at h ⊢ <;> simp_all
 
-theorem ctl_cb {c : Cfg} {s s' : Sys} (hc : c.proto = .fixed) (h : CtlInv s) (hs : stepCb c s = some s') : CtlInv s' := by
-  obtain ⟨m, a1, a2, a3, a4, a5, a6, a7, a8, a9, a10, a11⟩ := h
+theorem ctl_cb {c : Cfg} {s s' : Sys} (hc : c.proto = .fixed) (h : CtlInv c s) (hs : stepCb c s = some s') : CtlInv c s' := by
+  obtain ⟨m, a1, a2, a3, a4, a5, a5', a6, a7, a7', a8, a9, a10, a11⟩ := h
   have ht : s.thrRef = true := by
     cases ht : s.thrRef
     · have := a8 ht; unfold stepCb at hs; rcases this with h | h <;> simp [h] at hs
@@ -136,65 +208,123 @@ theorem ctl_cb {c : Cfg} {s s' : Sys} (hc : c.proto = .fixed) (h : CtlInv s) (hs
   split at hs <;> rename_i hcb
   · simp at hs
   · injection hs with hs; subst hs
-    refine ⟨mainOK_congr m ?_ ?_ ?_ ?_ ?_ ?_ ?_ ?_, ?_, ?_, ?_, ?_, ?_, ?_, ?_, ?_, ?_, ?_, ?_⟩ <;> simp_all [cbQuiet, loopTop]
+    refine ⟨mainOK_congr m ?_ ?_ ?_ ?_ ?_ ?_ ?_ ?_ ?_ ?_, ?_, ?_, ?_, ?_, ?_, ?_, ?_, ?_, ?_, ?_, ?_, ?_, ?_⟩ <;> simp_all [cbQuiet, loopTop]
   · split at hs <;> rename_i hq
     · injection hs with hs; subst hs
-      refine ⟨mainOK_congr m ?_ ?_ ?_ ?_ ?_ ?_ ?_ ?_, ?_, ?_, ?_, ?_, ?_, ?_, ?_, ?_, ?_, ?_, ?_⟩ <;> simp_all [cbQuiet]
+      refine ⟨mainOK_congr m ?_ ?_ ?_ ?_ ?_ ?_ ?_ ?_ ?_ ?_, ?_, ?_, ?_, ?_, ?_, ?_, ?_, ?_, ?_, ?_, ?_, ?_, ?_⟩ <;> simp_all [cbQuiet]
     · injection hs with hs; subst hs
-      refine ⟨mainOK_congr m ?_ ?_ ?_ ?_ ?_ ?_ ?_ ?_, ?_, ?_, ?_, ?_, ?_, ?_, ?_, ?_, ?_, ?_, ?_⟩ <;>
+      refine ⟨mainOK_congr m ?_ ?_ ?_ ?_ ?_ ?_ ?_ ?_ ?_ ?_, ?_, ?_, ?_, ?_, ?_, ?_, ?_, ?_, ?_, ?_, ?_, ?_, ?_⟩ <;>
         simp_all [cbQuiet, nextDeliver, afterCallbacks] <;> split <;> simp_all
   · injection hs with hs; subst hs
-    refine ⟨mainOK_congr m ?_ ?_ ?_ ?_ ?_ ?_ ?_ ?_, ?_, ?_, ?_, ?_, ?_, ?_, ?_, ?_, ?_, ?_, ?_⟩ <;> simp_all [cbQuiet]
+    refine ⟨mainOK_congr m ?_ ?_ ?_ ?_ ?_ ?_ ?_ ?_ ?_ ?_, ?_, ?_, ?_, ?_, ?_, ?_, ?_, ?_, ?_, ?_, ?_, ?_, ?_⟩ <;> simp_all [cbQuiet]
   · injection hs with hs; subst hs
-    refine ⟨mainOK_congr m ?_ ?_ ?_ ?_ ?_ ?_ ?_ ?_, ?_, ?_, ?_, ?_, ?_, ?_, ?_, ?_, ?_, ?_, ?_⟩ <;>
+    refine ⟨mainOK_congr m ?_ ?_ ?_ ?_ ?_ ?_ ?_ ?_ ?_ ?_, ?_, ?_, ?_, ?_, ?_, ?_, ?_, ?_, ?_, ?_, ?_, ?_, ?_⟩ <;>
         simp_all [cbQuiet, nextDeliver, afterCallbacks] <;> split <;> simp_all
   · injection hs with hs; subst hs
-    refine ⟨mainOK_congr m ?_ ?_ ?_ ?_ ?_ ?_ ?_ ?_, ?_, ?_, ?_, ?_, ?_, ?_, ?_, ?_, ?_, ?_, ?_⟩ <;> simp_all [cbQuiet, loopTop]
+    refine ⟨mainOK_congr m ?_ ?_ ?_ ?_ ?_ ?_ ?_ ?_ ?_ ?_, ?_, ?_, ?_, ?_, ?_, ?_, ?_, ?_, ?_, ?_, ?_, ?_, ?_⟩ <;> simp_all [cbQuiet, loopTop]
   · split at hs <;> injection hs with hs <;> subst hs <;>
-      refine ⟨mainOK_congr m ?_ ?_ ?_ ?_ ?_ ?_ ?_ ?_, ?_, ?_, ?_, ?_, ?_, ?_, ?_, ?_, ?_, ?_, ?_⟩ <;> simp_all [cbQuiet, loopTop]
+      refine ⟨mainOK_congr m ?_ ?_ ?_ ?_ ?_ ?_ ?_ ?_ ?_ ?_, ?_, ?_, ?_, ?_, ?_, ?_, ?_, ?_, ?_, ?_, ?_, ?_, ?_⟩ <;> simp_all [cbQuiet, loopTop]
   · simp at hs
-end Proofs.Listener
 
-namespace Proofs.Listener
-theorem mainOK_congr_srv {s s' : Sys} (h : MainOK s) (hsrv : s.srv = true) (h1 : s'.main = s.main) (h2 : s'.up = s.up)
-    (h3 : s'.srv = s.srv) (h4 : s'.accepting = s.accepting) (h5 : s'.thrRef = s.thrRef) (h6 : s'.qref = s.qref)
-    (h8 : s'.stopEv = s.stopEv) : MainOK s' := by
+theorem mainOK_congr_srv {c : Cfg} {s s' : Sys} (h : MainOK c s) (hsrv : s.srv = true ∨ s.srv2 = true) (h1 : s'.main = s.main)
+    (h2 : s'.up = s.up) (h3 : s'.srv = s.srv) (h4 : s'.accepting = s.accepting) (h3' : s'.srv2 = s.srv2)
+    (h4' : s'.accepting2 = s.accepting2) (h5 : s'.thrRef = s.thrRef) (h6 : s'.qref = s.qref)
+    (h8 : s'.stopEv = s.stopEv) : MainOK c s' := by
   unfold MainOK at h ⊢
-  rw [h1, h2, h3, h4, h5, h6, h8]
-  cases hm : s.main <;> simp [hm] at h ⊢ <;> simp_all
+  rw [h1, h2, h3, h4, h3', h4', h5, h6, h8]
+  cases hm : s.main <;> simp [hm] at h ⊢ <;> rcases hsrv with hh | hh <;> simp_all
 
-theorem ctl_snd {c : Cfg} {s s' : Sys} (_hc : c.proto = .fixed) (h : CtlInv s) {j : Nat} (hs : stepSnd c s j = some s') : CtlInv s' := by
-  obtain ⟨m, a1, a2, a3, a4, a5, a6, a7, a8, a9, a10, a11⟩ := h
+
+/-- the two "no handler of a stopped server" facts survive an update of sender `j` that keeps the port and
+    either keeps a busy handler busy or makes it idle -/
+theorem idle_facts_set {s : Sys} {j : Nat} {sd sd' : Sender} (hj : s.senders[j]? = some sd)
+    (a7 : s.srv = false → idleOn false s.senders = true) (a7' : s.srv2 = false → idleOn true s.senders = true)
+    (htls : sd'.tls = sd.tls) (hbusy : sd.pc ≠ .idle ∨ sd'.pc = .idle) :
+    (s.srv = false → idleOn false (s.senders.set j sd') = true) ∧
+    (s.srv2 = false → idleOn true (s.senders.set j sd') = true) := by
+  constructor
+  · intro h
+    refine idleOn_set (a7 h) j sd' ?_
+    rcases hbusy with hb | hb
+    · rcases idleOn_get (a7 h) hj with h1 | h1
+      · exact absurd h1 hb
+      · right; rw [htls]; exact h1
+    · exact Or.inl hb
+  · intro h
+    refine idleOn_set (a7' h) j sd' ?_
+    rcases hbusy with hb | hb
+    · rcases idleOn_get (a7' h) hj with h1 | h1
+      · exact absurd h1 hb
+      · right; rw [htls]; exact h1
+    · exact Or.inl hb
+
+theorem ctl_accept {c : Cfg} {s : Sys} (h : CtlInv c s) {j : Nat} {sd : Sender} (hj : s.senders[j]? = some sd)
+    (t : Bool) (hsrv : if t then s.srv2 = true else s.srv = true) : CtlInv c (acceptReq s j sd t) := by
+  obtain ⟨m, a1, a2, a3, a4, a5, a5', a6, a7, a7', a8, a9, a10, a11⟩ := h
+  have hsv : s.srv = true ∨ s.srv2 = true := by cases t <;> simp_all
+  obtain ⟨hq, ht⟩ := a6 hsv
+  unfold acceptReq
+  simp only [hq, if_true]
+  have i1 : s.srv = false → idleOn false (s.senders.set j { sd with pc := .put, tls := t }) = true := by
+    intro h0; refine idleOn_set (a7 h0) j _ ?_; cases t <;> simp_all
+  have i2 : s.srv2 = false → idleOn true (s.senders.set j { sd with pc := .put, tls := t }) = true := by
+    intro h0; refine idleOn_set (a7' h0) j _ ?_; cases t <;> simp_all
+  refine ⟨mainOK_congr_srv m hsv ?_ ?_ ?_ ?_ ?_ ?_ ?_ ?_ ?_, ?_, ?_, ?_, ?_, ?_, ?_, ?_, i1, i2, ?_, ?_, ?_, ?_⟩ <;>
+    simp_all [cbQuiet]
+
+theorem ctl_snd {c : Cfg} {s s' : Sys} (_hc : c.proto = .fixed) (h : CtlInv c s) {j : Nat} (hs : stepSnd c s j = some s') : CtlInv c s' := by
   unfold stepSnd at hs
   split at hs
   · simp at hs
   · rename_i sd hj
-    have hsrv : s.srv = true := by
-      cases hsrv : s.srv
-      · have hi := allIdle_get (a7 hsrv) hj
-        have hacc : s.accepting = false := by cases ha : s.accepting <;> simp_all
-        simp [stepSndAt, hi, hacc] at hs
-      · rfl
-    obtain ⟨hq, ht⟩ := a6 hsrv
     unfold stepSndAt at hs
     split at hs <;> rename_i hpc
-    · split at hs
-      · simp [hq] at hs; subst hs
-        refine ⟨mainOK_congr_srv m hsrv ?_ ?_ ?_ ?_ ?_ ?_ ?_, ?_, ?_, ?_, ?_, ?_, ?_, ?_, ?_, ?_, ?_, ?_⟩ <;> simp_all [cbQuiet]
+    · -- idle: a request arrives over the HTTP port
+      split at hs
+      · rename_i hacc
+        injection hs with hs; subst hs
+        exact ctl_accept h hj false (by simpa using h.acc_srv hacc)
       · simp at hs
-    · split at hs <;> injection hs with hs <;> subst hs <;>
-        refine ⟨mainOK_congr_srv m hsrv ?_ ?_ ?_ ?_ ?_ ?_ ?_, ?_, ?_, ?_, ?_, ?_, ?_, ?_, ?_, ?_, ?_, ?_⟩ <;> simp_all [cbQuiet]
+    all_goals
+      obtain ⟨m, a1, a2, a3, a4, a5, a5', a6, a7, a7', a8, a9, a10, a11⟩ := h
+      have hsv : s.srv = true ∨ s.srv2 = true := by
+        cases h1 : s.srv <;> cases h2 : s.srv2 <;> simp
+        have := allIdle_get (allIdle_of_idleOn (a7 h1) (a7' h2)) hj
+        simp [hpc] at this
+    · split at hs <;> injection hs with hs <;> subst hs
+      · obtain ⟨i1, i2⟩ := idle_facts_set (sd' := { sd with pc := .respErr }) hj a7 a7' rfl (Or.inl (by simp [hpc]))
+        refine ⟨mainOK_congr_srv m hsv ?_ ?_ ?_ ?_ ?_ ?_ ?_ ?_ ?_, ?_, ?_, ?_, ?_, ?_, ?_, ?_, i1, i2, ?_, ?_, ?_, ?_⟩ <;>
+          simp_all [cbQuiet, setPc]
+      · obtain ⟨i1, i2⟩ := idle_facts_set (sd' := { sd with pc := .respOk }) hj a7 a7' rfl (Or.inl (by simp [hpc]))
+        refine ⟨mainOK_congr_srv m hsv ?_ ?_ ?_ ?_ ?_ ?_ ?_ ?_ ?_, ?_, ?_, ?_, ?_, ?_, ?_, ?_, i1, i2, ?_, ?_, ?_, ?_⟩ <;>
+          simp_all [cbQuiet, setPc]
     all_goals
       injection hs with hs; subst hs
-      refine ⟨mainOK_congr_srv m hsrv ?_ ?_ ?_ ?_ ?_ ?_ ?_, ?_, ?_, ?_, ?_, ?_, ?_, ?_, ?_, ?_, ?_, ?_⟩ <;> simp_all [cbQuiet]
+      obtain ⟨i1, i2⟩ := idle_facts_set (sd' := { next := sd.next + 1, pc := .idle, tls := sd.tls }) hj a7 a7' rfl (Or.inr rfl)
+      refine ⟨mainOK_congr_srv m hsv ?_ ?_ ?_ ?_ ?_ ?_ ?_ ?_ ?_, ?_, ?_, ?_, ?_, ?_, ?_, ?_, i1, i2, ?_, ?_, ?_, ?_⟩ <;>
+        simp_all [cbQuiet, finishReq]
+
+theorem ctl_sndTls {c : Cfg} {s s' : Sys} (_hc : c.proto = .fixed) (h : CtlInv c s) {j : Nat} (hs : stepSndTls s j = some s') : CtlInv c s' := by
+  unfold stepSndTls at hs
+  split at hs
+  · simp at hs
+  · rename_i sd hj
+    split at hs
+    · rename_i hg
+      injection hs with hs; subst hs
+      exact ctl_accept h hj true (by simpa using h.acc_srv2 hg.2)
+    · simp at hs
+
 end Proofs.Listener
+
 
 namespace Proofs.Listener
 
 /-- the fields the history invariants talk about -/
 def sameData (s s' : Sys) : Prop :=
   s'.queue = s.queue ∧ s'.cb = s.cb ∧ s'.senders = s.senders ∧ s'.enq = s.enq ∧ s'.dlv = s.dlv ∧
-  s'.log = s.log ∧ s'.acked = s.acked ∧ s'.refused = s.refused ∧ s'.ignored = s.ignored
+  s'.log = s.log ∧ s'.acked = s.acked ∧ s'.refused = s.refused ∧ s'.ignored = s.ignored ∧
+  s'.qfull = s.qfull ∧ s'.fullLog = s.fullLog
 
 theorem sameData_afterQ (c : Cfg) (s : Sys) : sameData s (afterQ c s) := by
   unfold afterQ sameData; split
@@ -205,6 +335,11 @@ theorem sameData_afterServers (c : Cfg) (s : Sys) : sameData s (afterServers c s
   unfold afterServers; split
   · simp [sameData]
   · exact sameData_afterQ c s
+
+theorem sameData_stopHttps (c : Cfg) (s : Sys) : sameData s (stopHttps c s) := by
+  unfold stopHttps; split
+  · simp [sameData]
+  · exact sameData_afterServers c s
 
 theorem sameData_pollStep (c : Cfg) (s : Sys) : sameData s (pollStep c s) := by
   unfold pollStep; split
@@ -236,12 +371,19 @@ structure DataInv (c : Cfg) (s : Sys) : Prop where
   kOk : KOk c s
 
 theorem data_congr {c : Cfg} {s s' : Sys} (h : DataInv c s) (hd : sameData s s') : DataInv c s' := by
-  obtain ⟨h1, h2, h3, h4, h5, h6, _, _, _⟩ := hd
+  obtain ⟨h1, h2, h3, h4, h5, h6, _, _, _, _, _⟩ := hd
   obtain ⟨a, b, k⟩ := h
   refine ⟨?_, ?_, ?_⟩
   · simpa [inflight, h1, h2, h4, h5] using a
   · simpa [partialLog, h2, h5, h6] using b
   · simpa [KOk, h2] using k
+
+/-- a request accepted by a handler thread touches only the sender table (and the ghost `ignored`) -/
+theorem data_accept {c : Cfg} {s : Sys} (h : DataInv c s) (j : Nat) (sd : Sender) (t : Bool) :
+    DataInv c (acceptReq s j sd t) := by
+  obtain ⟨a, b, k⟩ := h
+  unfold acceptReq
+  split <;> refine ⟨?_, ?_, ?_⟩ <;> simp_all [inflight, partialLog, KOk]
 
 theorem data_init (c : Cfg) (n : Nat) : DataInv c (init n) := by
   refine ⟨?_, ?_, ?_⟩ <;> simp [init, inflight, partialLog, expand, KOk]
@@ -261,11 +403,11 @@ theorem data_stop {c : Cfg} {s s' : Sys} (h : DataInv c s) (hs : stepStop c s = 
   split at hs
   · split at hs <;> injection hs with hs <;> subst hs
     · exact data_congr h (by simp [sameData])
-    · have := sameData_afterServers c { s with up := false }
+    · have := sameData_stopHttps c { s with up := false }
       exact data_congr h (by simpa [sameData] using this)
   · simp at hs
 
-theorem data_main {c : Cfg} {s s' : Sys} (_hc : c.proto = .fixed) (hctl : CtlInv s) (h : DataInv c s)
+theorem data_main {c : Cfg} {s s' : Sys} (_hc : c.proto = .fixed) (hctl : CtlInv c s) (h : DataInv c s)
     (hs : stepMain c s = some s') : DataInv c s' := by
   have m := hctl.mainOK
   unfold stepMain at hs
@@ -273,7 +415,7 @@ theorem data_main {c : Cfg} {s s' : Sys} (_hc : c.proto = .fixed) (hctl : CtlInv
   · simp at hs
   · -- sMkq: the new queue is empty, so was the old one
     injection hs with hs; subst hs
-    have hq : s.queue = [] := m.2.2.2.2
+    have hq : s.queue = [] := m.2.2.2.2.2
     exact data_congr h (by simp [sameData, hq])
   · -- sThr: the old thread object (if any) has ended
     injection hs with hs; subst hs
@@ -285,9 +427,16 @@ theorem data_main {c : Cfg} {s s' : Sys} (_hc : c.proto = .fixed) (hctl : CtlInv
     · simp [KOk]
   · injection hs with hs; subst hs; exact data_congr h (by simp [sameData])
   · injection hs with hs; subst hs; exact data_congr h (by simp [sameData])
+  · injection hs with hs; subst hs; exact data_congr h (by simp [sameData])
   · split at hs
     · injection hs with hs; subst hs
-      have := sameData_afterServers c { s with srv := false }
+      have := sameData_stopHttps c { s with srv := false }
+      exact data_congr h (by simpa [sameData] using this)
+    · simp at hs
+  · injection hs with hs; subst hs; exact data_congr h (by simp [sameData])
+  · split at hs
+    · injection hs with hs; subst hs
+      have := sameData_afterServers c { s with srv2 := false }
       exact data_congr h (by simpa [sameData] using this)
     · simp at hs
   · injection hs with hs; subst hs; exact data_congr h (sameData_pollStep c s)
@@ -342,8 +491,7 @@ theorem data_snd {c : Cfg} {s s' : Sys} (h : DataInv c s) {j : Nat}
     unfold stepSndAt at hs
     split at hs
     · split at hs
-      · split at hs <;> injection hs with hs <;> subst hs <;>
-          refine ⟨?_, ?_, ?_⟩ <;> simp_all [inflight, partialLog, KOk]
+      · injection hs with hs; subst hs; exact data_accept ⟨a, b, k⟩ j sd false
       · simp at hs
     · split at hs <;> injection hs with hs <;> subst hs
       · refine ⟨?_, ?_, ?_⟩ <;> simp_all [inflight, partialLog, KOk]
@@ -355,7 +503,18 @@ theorem data_snd {c : Cfg} {s s' : Sys} (h : DataInv c s) {j : Nat}
       injection hs with hs; subst hs
       refine ⟨?_, ?_, ?_⟩ <;> simp_all [inflight, partialLog, KOk]
 
+theorem data_sndTls {c : Cfg} {s s' : Sys} (h : DataInv c s) {j : Nat}
+    (hs : stepSndTls s j = some s') : DataInv c s' := by
+  unfold stepSndTls at hs
+  split at hs
+  · simp at hs
+  · rename_i sd hj
+    split at hs
+    · injection hs with hs; subst hs; exact data_accept h j sd true
+    · simp at hs
+
 end Proofs.Listener
+
 
 namespace Proofs.Listener
 
@@ -399,14 +558,14 @@ theorem uniq_init (c : Cfg) (n : Nat) : UniqInv c (init n) := by
 /-- steps of the main and callback threads leave the sender-side history alone and never grow the queue -/
 def sameHist (s s' : Sys) : Prop :=
   s'.senders = s.senders ∧ s'.enq = s.enq ∧ s'.acked = s.acked ∧ s'.refused = s.refused ∧
-  s'.ignored = s.ignored ∧ s'.queue.length ≤ s.queue.length
+  s'.ignored = s.ignored ∧ s'.queue.length ≤ s.queue.length ∧ s'.qfull = s.qfull ∧ s'.fullLog = s.fullLog
 
 theorem sameHist_of_sameData {s s' : Sys} (h : sameData s s') : sameHist s s' := by
-  obtain ⟨h1, h2, h3, h4, h5, h6, h7, h8, h9⟩ := h
+  obtain ⟨h1, h2, h3, h4, h5, h6, h7, h8, h9, h10, h11⟩ := h
   simp [sameHist, *]
 
 theorem uniq_congr {c : Cfg} {s s' : Sys} (h : UniqInv c s) (hd : sameHist s s') : UniqInv c s' := by
-  obtain ⟨h1, h2, h3, h4, h5, h6⟩ := hd
+  obtain ⟨h1, h2, h3, h4, h5, h6, _, _⟩ := hd
   obtain ⟨a1, a2, a3, a4, a5, a6, a7, a8, a9, a10, a11, a12⟩ := h
   refine ⟨?_, ?_, ?_, ?_, ?_, ?_, ?_, ?_, ?_, ?_, ?_, ?_⟩ <;> simp_all
   intro hq; have := a12 hq; omega
@@ -422,7 +581,7 @@ theorem sameHist_stop {c : Cfg} {s s' : Sys} (hs : stepStop c s = some s') : sam
   split at hs
   · split at hs <;> injection hs with hs <;> subst hs
     · simp [sameHist]
-    · have := sameHist_of_sameData (sameData_afterServers c { s with up := false })
+    · have := sameHist_of_sameData (sameData_stopHttps c { s with up := false })
       simpa [sameHist] using this
   · simp at hs
 
@@ -434,9 +593,16 @@ theorem sameHist_main {c : Cfg} {s s' : Sys} (hs : stepMain c s = some s') : sam
   · injection hs with hs; subst hs; simp [sameHist]
   · injection hs with hs; subst hs; simp [sameHist]
   · injection hs with hs; subst hs; simp [sameHist]
+  · injection hs with hs; subst hs; simp [sameHist]
   · split at hs
     · injection hs with hs; subst hs
-      have := sameHist_of_sameData (sameData_afterServers c { s with srv := false })
+      have := sameHist_of_sameData (sameData_stopHttps c { s with srv := false })
+      simpa [sameHist] using this
+    · simp at hs
+  · injection hs with hs; subst hs; simp [sameHist]
+  · split at hs
+    · injection hs with hs; subst hs
+      have := sameHist_of_sameData (sameData_afterServers c { s with srv2 := false })
       simpa [sameHist] using this
     · simp at hs
   · injection hs with hs; subst hs; exact sameHist_of_sameData (sameData_pollStep c s)
@@ -476,6 +642,15 @@ theorem sameHist_cb {c : Cfg} {s s' : Sys} (hs : stepCb c s = some s') : sameHis
   · simp at hs
 
 
+theorem uniq_accept {c : Cfg} {s : Sys} (h : UniqInv c s) {j : Nat} {sd : Sender} (hj : s.senders[j]? = some sd)
+    (hpc : sd.pc = .idle) (t : Bool) : UniqInv c (acceptReq s j sd t) := by
+  obtain ⟨enqB, refB, ackB, order, ackOrder, refOrder, ref_not_enq, respOk_enq, ack_enq, enq_ack, respIgn_ign, qbound⟩ := h
+  have gs := fun sd' i => get_set (l := s.senders) (j := j) sd' hj i
+  unfold acceptReq
+  split <;>
+    refine ⟨?_, ?_, ?_, ?_, ?_, ?_, ?_, ?_, ?_, ?_, ?_, ?_⟩ <;> simp only [gs] <;> (try assumption) <;>
+    grind [enqBound]
+
 /-- what a sender step does to the sender table: only entry `j` changes -/
 theorem uniq_snd {c : Cfg} {s s' : Sys} (h : UniqInv c s) {j : Nat}
     (hs : stepSnd c s j = some s') : UniqInv c s' := by
@@ -489,9 +664,9 @@ theorem uniq_snd {c : Cfg} {s s' : Sys} (h : UniqInv c s) {j : Nat}
     split at hs <;> rename_i hpc
     · -- idle: accept the request
       split at hs
-      · split at hs <;> injection hs with hs <;> subst hs <;>
-          refine ⟨?_, ?_, ?_, ?_, ?_, ?_, ?_, ?_, ?_, ?_, ?_, ?_⟩ <;> simp only [setPc, gs] <;> (try assumption) <;>
-          grind [enqBound]
+      · injection hs with hs; subst hs
+        exact uniq_accept ⟨enqB, refB, ackB, order, ackOrder, refOrder, ref_not_enq, respOk_enq, ack_enq, enq_ack,
+          respIgn_ign, qbound⟩ hj hpc false
       · simp at hs
     · -- put
       split at hs <;> rename_i hfull <;> injection hs with hs <;> subst hs
@@ -545,9 +720,20 @@ end Proofs.Listener
 
 namespace Proofs.Listener
 
+theorem uniq_sndTls {c : Cfg} {s s' : Sys} (h : UniqInv c s) {j : Nat}
+    (hs : stepSndTls s j = some s') : UniqInv c s' := by
+  unfold stepSndTls at hs
+  split at hs
+  · simp at hs
+  · rename_i sd hj
+    split at hs
+    · rename_i hg
+      injection hs with hs; subst hs; exact uniq_accept h hj hg.1 true
+    · simp at hs
+
 /-- everything that is proved by induction over the step relation for the fixed protocol -/
 structure Inv (c : Cfg) (s : Sys) : Prop where
-  ctl : CtlInv s
+  ctl : CtlInv c s
   data : DataInv c s
   uniq : UniqInv c s
 
@@ -559,6 +745,7 @@ theorem uniq_step {c : Cfg} {s s' : Sys} (l : Label) (h : UniqInv c s) (hs : ste
   | main => exact uniq_congr h (sameHist_main hs)
   | cb r => exact uniq_congr h (sameHist_cb hs)
   | snd j => exact uniq_snd h hs
+  | sndTls j => exact uniq_sndTls h hs
 
 theorem inv_step {c : Cfg} (hc : c.proto = .fixed) {s s' : Sys} (l : Label) (h : Inv c s)
     (hs : step c l s = some s') : Inv c s' := by
@@ -569,12 +756,14 @@ theorem inv_step {c : Cfg} (hc : c.proto = .fixed) {s s' : Sys} (l : Label) (h :
     | main => exact ctl_main hc h.ctl hs
     | cb r => exact ctl_cb hc h.ctl hs
     | snd j => exact ctl_snd hc h.ctl hs
+    | sndTls j => exact ctl_sndTls hc h.ctl hs
   · cases l with
     | start => exact data_start h.data hs
     | stop => exact data_stop h.data hs
     | main => exact data_main hc h.ctl h.data hs
     | cb r => exact data_cb hc h.data hs
     | snd j => exact data_snd h.data hs
+    | sndTls j => exact data_sndTls h.data hs
 
 theorem uniq_reachable {c : Cfg} {n : Nat} {s : Sys} (h : Reachable c n s) : UniqInv c s := by
   induction h with
@@ -583,7 +772,7 @@ theorem uniq_reachable {c : Cfg} {n : Nat} {s : Sys} (h : Reachable c n s) : Uni
 
 theorem inv_reachable {c : Cfg} (hc : c.proto = .fixed) {n : Nat} {s : Sys} (h : Reachable c n s) : Inv c s := by
   induction h with
-  | init => exact ⟨ctl_init n, data_init c n, uniq_init c n⟩
+  | init => exact ⟨ctl_init c n, data_init c n, uniq_init c n⟩
   | step l _ hs ih => exact inv_step hc l ih hs
 
 theorem reachable_runTrace {c : Cfg} {n : Nat} {s s' : Sys} (h : Reachable c n s) (ls : List Label)
@@ -682,9 +871,10 @@ def W (c : Cfg) : Nat := 2 * c.ncb + 3
 
 def mainRank (s : Sys) : Nat :=
   match s.main with
-  | .sMkq => 130 | .sThr => 120 | .sSrv => 110
-  | .idle => if s.up then 100 else 0
-  | .tShutdown => 90 | .tClose => 80 | .tPoll => 70 | .tSetEv => 60 | .tJoin => 50
+  | .sMkq => 150 | .sThr => 140 | .sSrv => 130 | .sSrv2 => 120
+  | .idle => if s.up then 110 else 0
+  | .tShutdown => 100 | .tClose => 90 | .tShutdown2 => 80 | .tClose2 => 75
+  | .tPoll => 70 | .tSetEv => 60 | .tJoin => 50
 
 def hWork (c : Cfg) : HPc → Nat
   | .idle => 0 | .put => W c + 2 | .respOk => 1 | .respIgn => 1 | .respErr => 1
@@ -726,6 +916,18 @@ theorem exists_busy (l : List Sender) (h : allIdle l = false) :
     · exact ⟨0, a, by simp, ha⟩
 
 
+theorem exists_busy_on (t : Bool) (l : List Sender) (h : idleOn t l = false) :
+    ∃ (j : Nat) (sd : Sender), l[j]? = some sd ∧ sd.pc ≠ HPc.idle := by
+  induction l with
+  | nil => simp [idleOn] at h
+  | cons a l ih =>
+    by_cases ha : a.pc = HPc.idle
+    · have : idleOn t l = false := by simpa [idleOn, ha] using h
+      obtain ⟨j, sd, hj, hp⟩ := ih this
+      refine ⟨j + 1, sd, ?_, hp⟩
+      simp [hj]
+    · exact ⟨0, a, by simp, ha⟩
+
 theorem rank_afterQ (c : Cfg) (s : Sys) (hup : s.up = false) : mainRank (afterQ c s) ≤ 60 := by
   unfold afterQ; split
   · simp [mainRank]
@@ -752,37 +954,66 @@ theorem stopEv_afterServers (c : Cfg) (s : Sys) : (afterServers c s).stopEv = s.
   · rfl
   · exact stopEv_afterQ c s
 
+theorem rank_stopHttps (c : Cfg) (s : Sys) (hup : s.up = false) : mainRank (stopHttps c s) ≤ 80 := by
+  unfold stopHttps; split
+  · simp [mainRank]
+  · have := rank_afterServers c s hup; omega
+
+theorem stopEv_stopHttps (c : Cfg) (s : Sys) : (stopHttps c s).stopEv = s.stopEv := by
+  unfold stopHttps; split
+  · rfl
+  · exact stopEv_afterServers c s
+
 /-- main-thread cases of the progress lemma -/
 theorem progress_main {c : Cfg} (hc : c.proto = .fixed) {s : Sys} (I : Inv c s)
-    (hm : s.main ≠ .idle) (hclose : s.main = .tClose → allIdle s.senders = true)
+    (hm : s.main ≠ .idle) (hclose : s.main = .tClose → idleOn false s.senders = true)
+    (hclose2 : s.main = .tClose2 → idleOn true s.senders = true)
     (hpoll : s.main = .tPoll → s.queue = []) (hjoin : s.main = .tJoin → ∃ e, s.cb = .done e) :
     ∃ s', stepMain c s = some s' ∧ measure c s' < measure c s := by
   have m := I.ctl.mainOK
+  have hle : mainRank s ≤ measure c s := by simp only [measure]; omega
   cases hmain : s.main <;> simp [MainOK, hmain] at m
   · exact absurd hmain hm
   · -- sMkq
     refine ⟨{ s with qref := true, queue := [], main := .sThr }, by simp [stepMain, hmain], ?_⟩
-    simp [measure, mainRank, cbRem, hmain, m.2.2.2.2]
+    simp [measure, mainRank, cbRem, hmain, m.2.2.2.2.2]
   · -- sThr
-    refine ⟨{ s with thrRef := true, stopEv := false, cb := .run, main := .sSrv }, by simp [stepMain, hmain], ?_⟩
+    refine ⟨{ s with thrRef := true, stopEv := false, cb := .run, main := startServers c }, by simp [stepMain, hmain], ?_⟩
     have hq := I.ctl.nothr_cb m.2.2.1
-    rcases hq with hq | hq <;> simp [measure, mainRank, cbRem, hmain, hq] <;> omega
+    cases h1 : c.http <;> cases h2 : c.https <;> rcases hq with hq | hq <;>
+      simp [measure, mainRank, cbRem, hmain, hq, startServers, h1, h2, m.1] <;> omega
   · -- sSrv
-    refine ⟨{ s with srv := true, accepting := true, main := .idle }, by simp [stepMain, hmain], ?_⟩
+    refine ⟨{ s with srv := true, accepting := true, main := if c.https then .sSrv2 else .idle },
+      by simp [stepMain, hmain], ?_⟩
+    cases hh : c.https <;> simp [measure, mainRank, cbRem, hmain, m.1]
+  · -- sSrv2
+    refine ⟨{ s with srv2 := true, accepting2 := true, main := .idle }, by simp [stepMain, hmain], ?_⟩
     simp [measure, mainRank, cbRem, hmain, m.1]
   · -- tShutdown
     refine ⟨{ s with accepting := false, main := .tClose }, by simp [stepMain, hmain], ?_⟩
     simp [measure, mainRank, cbRem, hmain]
   · -- tClose
     have hi := hclose hmain
-    refine ⟨afterServers c { s with srv := false }, by simp [stepMain, hmain, hi], ?_⟩
-    have h1 := rank_afterServers c { s with srv := false } m.1
-    have h2 := measure_sameData (c := c) (sameData_afterServers c { s with srv := false })
-      (stopEv_afterServers c { s with srv := false })
+    refine ⟨stopHttps c { s with srv := false }, by simp [stepMain, hmain, hi], ?_⟩
+    have h1 := rank_stopHttps c { s with srv := false } m.1
+    have h2 := measure_sameData (c := c) (sameData_stopHttps c { s with srv := false })
+      (stopEv_stopHttps c { s with srv := false })
     have h4 : measure c { s with srv := false } = measure c s := by simp [measure, mainRank, cbRem]
-    have h5 : mainRank { s with srv := false } = 80 := by simp [mainRank, hmain]
-    have h6 : mainRank s = 80 := by simp [mainRank, hmain]
-    have h7 : mainRank s ≤ measure c s := by simp only [measure]; omega
+    have h5 : mainRank { s with srv := false } = 90 := by simp [mainRank, hmain]
+    have h6 : mainRank s = 90 := by simp [mainRank, hmain]
+    omega
+  · -- tShutdown2
+    refine ⟨{ s with accepting2 := false, main := .tClose2 }, by simp [stepMain, hmain], ?_⟩
+    simp [measure, mainRank, cbRem, hmain]
+  · -- tClose2
+    have hi := hclose2 hmain
+    refine ⟨afterServers c { s with srv2 := false }, by simp [stepMain, hmain, hi], ?_⟩
+    have h1 := rank_afterServers c { s with srv2 := false } m.1
+    have h2 := measure_sameData (c := c) (sameData_afterServers c { s with srv2 := false })
+      (stopEv_afterServers c { s with srv2 := false })
+    have h4 : measure c { s with srv2 := false } = measure c s := by simp [measure, mainRank, cbRem]
+    have h5 : mainRank { s with srv2 := false } = 75 := by simp [mainRank, hmain]
+    have h6 : mainRank s = 75 := by simp [mainRank, hmain]
     omega
   · -- tPoll
     have hq := hpoll hmain
@@ -791,7 +1022,6 @@ theorem progress_main {c : Cfg} (hc : c.proto = .fixed) {s : Sys} (I : Inv c s)
     have h1 := rank_afterQ c s m.1
     have h2 := measure_sameData (c := c) (sameData_afterQ c s) (stopEv_afterQ c s)
     have h6 : mainRank s = 70 := by simp [mainRank, hmain]
-    have h7 : mainRank s ≤ measure c s := by simp only [measure]; omega
     omega
   · -- tSetEv
     refine ⟨{ s with stopEv := true, main := .tJoin }, by simp [stepMain, hmain], ?_⟩
@@ -806,7 +1036,6 @@ theorem progress_main {c : Cfg} (hc : c.proto = .fixed) {s : Sys} (I : Inv c s)
     subst this
     refine ⟨joinStep c s false, by simp [stepMain, hmain, he], ?_⟩
     simp [joinStep, hc, measure, mainRank, cbRem, hmain, he, m.1]
-
 
 /-- callback-thread cases: every step of a live callback thread makes progress, except the idle
     timeout (`get` on an empty queue while no stop was requested) -/
@@ -866,35 +1095,78 @@ theorem progress_snd {c : Cfg} {s : Sys} {j : Nat} {sd : Sender} (hj : s.senders
   | put =>
     cases hf : isFull c s with
     | true =>
-      refine ⟨{ s with senders := setPc s j sd .respErr }, by simp [stepSnd, hj, stepSndAt, hpc, hf], ?_⟩
+      refine ⟨{ s with senders := setPc s j sd .respErr, qfull := true, fullLog := logFull s },
+        by simp [stepSnd, hj, stepSndAt, hpc, hf], ?_⟩
       have := key { sd with pc := .respErr }
       simp [hWork, hpc] at this
       simp [measure, mainRank, cbRem, setPc]; omega
     | false =>
       refine ⟨{ s with queue := s.queue ++ [(j, sd.next)], enq := s.enq ++ [(j, sd.next)],
-                       senders := setPc s j sd .respOk }, by simp [stepSnd, hj, stepSndAt, hpc, hf], ?_⟩
+                       senders := setPc s j sd .respOk, qfull := false, fullLog := logNotFull s },
+        by simp [stepSnd, hj, stepSndAt, hpc, hf], ?_⟩
       have := key { sd with pc := .respOk }
       simp [hWork, hpc] at this
       simp [measure, mainRank, cbRem, setPc, Nat.add_mul]; omega
   | respOk =>
     refine ⟨{ s with acked := s.acked ++ [(j, sd.next)], senders := finishReq s j sd },
       by simp [stepSnd, hj, stepSndAt, hpc], ?_⟩
-    have := key { next := sd.next + 1, pc := .idle }
+    have := key { next := sd.next + 1, pc := .idle, tls := sd.tls }
     simp [hWork, hpc] at this
     simp [measure, mainRank, cbRem, finishReq]; omega
   | respIgn =>
     refine ⟨{ s with acked := s.acked ++ [(j, sd.next)], senders := finishReq s j sd },
       by simp [stepSnd, hj, stepSndAt, hpc], ?_⟩
-    have := key { next := sd.next + 1, pc := .idle }
+    have := key { next := sd.next + 1, pc := .idle, tls := sd.tls }
     simp [hWork, hpc] at this
     simp [measure, mainRank, cbRem, finishReq]; omega
   | respErr =>
     refine ⟨{ s with refused := s.refused ++ [(j, sd.next)], senders := finishReq s j sd },
       by simp [stepSnd, hj, stepSndAt, hpc], ?_⟩
-    have := key { next := sd.next + 1, pc := .idle }
+    have := key { next := sd.next + 1, pc := .idle, tls := sd.tls }
     simp [hWork, hpc] at this
     simp [measure, mainRank, cbRem, finishReq]; omega
 
+
+theorem progress_rest {c : Cfg} (hc : c.proto = .fixed) {s : Sys} (I : Inv c s)
+    (hns : ¬ (s.main = .idle ∧ s.up = false)) (hidle : ¬ s.main = .idle)
+    (hclose : ¬ (s.main = .tClose ∧ idleOn false s.senders = false))
+    (hclose2 : ¬ (s.main = .tClose2 ∧ idleOn true s.senders = false)) :
+    ∃ l s', l ≠ .start ∧ step c l s = some s' ∧ measure c s' < measure c s := by
+  have m := I.ctl.mainOK
+  by_cases hpoll : s.main = .tPoll ∧ s.queue ≠ []
+  · simp [MainOK, hpoll.1] at m
+    have hev : s.stopEv = false := by
+      cases he : s.stopEv
+      · rfl
+      · rcases I.ctl.evOff he with h | h
+        · simp [m.2.2.2.2] at h
+        · simp [hpoll.1] at h
+    obtain ⟨s', h1, h2⟩ := progress_cb hc I.data.kOk (I.ctl.thrAlive m.2.2.2.2)
+      (I.ctl.noDone m.2.2.2.2 hev) (Or.inl hpoll.2)
+    exact ⟨.cb false, s', by simp, h1, h2⟩
+  · by_cases hjoin : s.main = .tJoin ∧ ∀ e, s.cb ≠ .done e
+    · simp [MainOK, hjoin.1] at m
+      obtain ⟨s', h1, h2⟩ := progress_cb hc I.data.kOk (I.ctl.thrAlive m.2.2.2.2.1) hjoin.2
+        (Or.inr m.2.2.2.2.2.2)
+      exact ⟨.cb false, s', by simp, h1, h2⟩
+    · obtain ⟨s', h1, h2⟩ := progress_main hc I hidle
+        (fun h => by
+          cases ha : idleOn false s.senders
+          · exact absurd ⟨h, ha⟩ hclose
+          · rfl)
+        (fun h => by
+          cases ha : idleOn true s.senders
+          · exact absurd ⟨h, ha⟩ hclose2
+          · rfl)
+        (fun h => by
+          cases hq : s.queue with
+          | nil => rfl
+          | cons x q => exact absurd ⟨h, by simp [hq]⟩ hpoll)
+        (fun h => by
+          apply Classical.byContradiction
+          intro hne
+          exact hjoin ⟨h, fun e he => hne ⟨e, he⟩⟩)
+      exact ⟨.main, s', by simp, h1, h2⟩
 
 /-- **Progress.**  In every state satisfying the invariants in which stop() has not returned, some
     thread can take a step that decreases the measure. -/
@@ -909,42 +1181,27 @@ theorem progress {c : Cfg} (hc : c.proto = .fixed) {s : Sys} (I : Inv c s)
       · exact absurd ⟨hidle, hu⟩ hns
       · rfl
     simp [MainOK, hidle, hup] at m
-    refine ⟨.stop, { s with up := false, main := .tShutdown }, by simp, by simp [step, stepStop, hidle, m.1], ?_⟩
-    simp [measure, mainRank, cbRem, hidle, hup]
-  · by_cases hclose : s.main = .tClose ∧ allIdle s.senders = false
-    · obtain ⟨j, sd, hj, hb⟩ := exists_busy _ hclose.2
+    have hle : mainRank s ≤ measure c s := by simp only [measure]; omega
+    cases hsrv : s.srv
+    · refine ⟨.stop, stopHttps c { s with up := false }, by simp, by simp [step, stepStop, hidle, hsrv], ?_⟩
+      have h1 := rank_stopHttps c { s with up := false } rfl
+      have h2 := measure_sameData (c := c) (sameData_stopHttps c { s with up := false })
+        (stopEv_stopHttps c { s with up := false })
+      have h4 : measure c { s with up := false } + 110 = measure c s := by
+        simp [measure, mainRank, cbRem, hidle, hup]; omega
+      have h5 : mainRank { s with up := false } = 0 := by simp [mainRank, hidle]
+      omega
+    · refine ⟨.stop, { s with up := false, main := .tShutdown }, by simp, by simp [step, stepStop, hidle, hsrv], ?_⟩
+      simp [measure, mainRank, cbRem, hidle, hup]
+  · by_cases hclose : s.main = .tClose ∧ idleOn false s.senders = false
+    · obtain ⟨j, sd, hj, hb⟩ := exists_busy_on false _ hclose.2
       obtain ⟨s', h1, h2⟩ := progress_snd (c := c) hj hb
       exact ⟨.snd j, s', by simp, h1, h2⟩
-    · by_cases hpoll : s.main = .tPoll ∧ s.queue ≠ []
-      · simp [MainOK, hpoll.1] at m
-        have hev : s.stopEv = false := by
-          cases he : s.stopEv
-          · rfl
-          · rcases I.ctl.evOff he with h | h
-            · simp [m.2.2.2] at h
-            · simp [hpoll.1] at h
-        obtain ⟨s', h1, h2⟩ := progress_cb hc I.data.kOk (I.ctl.thrAlive m.2.2.2)
-          (I.ctl.noDone m.2.2.2 hev) (Or.inl hpoll.2)
-        exact ⟨.cb false, s', by simp, h1, h2⟩
-      · by_cases hjoin : s.main = .tJoin ∧ ∀ e, s.cb ≠ .done e
-        · simp [MainOK, hjoin.1] at m
-          obtain ⟨s', h1, h2⟩ := progress_cb hc I.data.kOk (I.ctl.thrAlive m.2.2.2.1) hjoin.2
-            (Or.inr m.2.2.2.2.2)
-          exact ⟨.cb false, s', by simp, h1, h2⟩
-        · obtain ⟨s', h1, h2⟩ := progress_main hc I hidle
-            (fun h => by
-              cases ha : allIdle s.senders
-              · exact absurd ⟨h, ha⟩ hclose
-              · rfl)
-            (fun h => by
-              cases hq : s.queue with
-              | nil => rfl
-              | cons x q => exact absurd ⟨h, by simp [hq]⟩ hpoll)
-            (fun h => by
-              apply Classical.byContradiction
-              intro hne
-              exact hjoin ⟨h, fun e he => hne ⟨e, he⟩⟩)
-          exact ⟨.main, s', by simp, h1, h2⟩
+    · by_cases hclose2 : s.main = .tClose2 ∧ idleOn true s.senders = false
+      · obtain ⟨j, sd, hj, hb⟩ := exists_busy_on true _ hclose2.2
+        obtain ⟨s', h1, h2⟩ := progress_snd (c := c) hj hb
+        exact ⟨.snd j, s', by simp, h1, h2⟩
+      · exact progress_rest hc I hns hidle hclose hclose2
 
 /-- **stop() can always return**: from every reachable state of the fixed protocol some schedule
     leads to a state in which stop() has returned (no reachable deadlock, and the polling loops of
@@ -1001,6 +1258,198 @@ theorem seenBy_expand (k n : Nat) (d : List Ind) : seenBy k (expand n d) = if k 
     have : expand n (y :: ys) = calls n y ++ expand n ys := by simp [expand]
     rw [this, seenBy_append, ih, seenBy_calls]
     by_cases h : k < n <;> simp [h]
+
+
+end Proofs.Listener
+
+
+namespace Proofs.Listener
+
+/-! ### the `_queue_full` flag and its edge-triggered warnings (both protocols) -/
+
+theorem alternating_snoc (l : List Bool) (b : Bool) :
+    alternating (l ++ [b]) = (alternating l && (l.getLast? != some b)) := by
+  induction l with
+  | nil => simp [alternating]
+  | cons x r ih =>
+    cases r with
+    | nil => cases x <;> cases b <;> simp [alternating]
+    | cons y r' =>
+      have : (x :: y :: r') ++ [b] = x :: (y :: (r' ++ [b])) := by simp
+      rw [this]
+      simp only [alternating]
+      have ih' : alternating (y :: (r' ++ [b])) = (alternating (y :: r') && ((y :: r').getLast? != some b)) := by
+        simpa using ih
+      rw [ih']
+      simp [List.getLast?_cons_cons, Bool.and_assoc]
+
+structure FullInv (c : Cfg) (s : Sys) : Prop where
+  bounded : s.qfull = true → c.maxQ ≠ 0
+  lastOk : s.fullLog.getLast? = if s.fullLog = [] then none else some s.qfull
+  emptyOk : s.fullLog = [] → s.qfull = false
+  alt : alternating s.fullLog = true
+  headOk : s.fullLog.head? ≠ some false
+
+theorem full_init (c : Cfg) (n : Nat) : FullInv c (init n) := by
+  refine ⟨?_, ?_, ?_, ?_, ?_⟩ <;> simp [init, alternating]
+
+theorem full_congr {c : Cfg} {s s' : Sys} (h : FullInv c s) (h1 : s'.qfull = s.qfull) (h2 : s'.fullLog = s.fullLog) :
+    FullInv c s' := by
+  obtain ⟨a, b, e, d, f⟩ := h
+  refine ⟨?_, ?_, ?_, ?_, ?_⟩ <;> simp_all
+
+theorem full_accept {c : Cfg} {s : Sys} (h : FullInv c s) (j : Nat) (sd : Sender) (t : Bool) :
+    FullInv c (acceptReq s j sd t) := by
+  unfold acceptReq; split <;> exact full_congr h rfl rfl
+
+/-- a warning is logged: the flag flips to `v` and `v` is appended -/
+theorem full_push {c : Cfg} {s s' : Sys} (h : FullInv c s) (v : Bool) (hv : s.qfull = !v)
+    (hb : v = true → c.maxQ ≠ 0) (h1 : s'.qfull = v) (h2 : s'.fullLog = s.fullLog ++ [v]) : FullInv c s' := by
+  obtain ⟨a, b, e, d, f⟩ := h
+  have hlast : s.fullLog.getLast? ≠ some v := by
+    rw [b]; split
+    · simp
+    · cases v <;> simp_all
+  have hfirst : s.fullLog = [] → v = true := by
+    intro h0; have := e h0; cases v <;> simp_all
+  refine ⟨?_, ?_, ?_, ?_, ?_⟩
+  · rw [h1]; exact hb
+  · rw [h2, h1]; simp
+  · rw [h2]; simp
+  · rw [h2, alternating_snoc, d]; simpa using hlast
+  · rw [h2]
+    by_cases h0 : s.fullLog = []
+    · simp [h0, hfirst h0]
+    · cases hl : s.fullLog with
+      | nil => exact absurd hl h0
+      | cons x r => rw [hl] at f; simpa using f
+
+/-- no warning: the flag keeps its value -/
+theorem full_keep {c : Cfg} {s s' : Sys} (h : FullInv c s) (h1 : s'.qfull = s.qfull) (h2 : s'.fullLog = s.fullLog) :
+    FullInv c s' := full_congr h h1 h2
+
+theorem full_snd {c : Cfg} {s s' : Sys} (h : FullInv c s) {j : Nat} (hs : stepSnd c s j = some s') : FullInv c s' := by
+  unfold stepSnd at hs
+  split at hs
+  · simp at hs
+  · rename_i sd hj
+    unfold stepSndAt at hs
+    split at hs
+    · split at hs
+      · injection hs with hs; subst hs; exact full_accept h j sd false
+      · simp at hs
+    · split at hs <;> rename_i hf <;> injection hs with hs <;> subst hs
+      · -- refused: flag := true, "now full" logged if the flag was false
+        have hm : c.maxQ ≠ 0 := by simp [isFull] at hf; exact hf.1
+        cases hq : s.qfull
+        · exact full_push h true (by simp [hq]) (fun _ => hm) rfl (by simp [logFull, hq])
+        · exact full_keep h (by simp [hq]) (by simp [logFull, hq])
+      · -- accepted: flag := false, "no longer full" logged if the flag was true
+        cases hq : s.qfull
+        · exact full_keep h (by simp [hq]) (by simp [logNotFull, hq])
+        · exact full_push h false (by simp [hq]) (by simp) rfl (by simp [logNotFull, hq])
+    all_goals
+      injection hs with hs; subst hs; exact full_congr h rfl rfl
+
+theorem full_step {c : Cfg} {s s' : Sys} (l : Label) (h : FullInv c s) (hs : step c l s = some s') : FullInv c s' := by
+  cases l with
+  | start => have := sameHist_start hs; exact full_congr h this.2.2.2.2.2.2.1 this.2.2.2.2.2.2.2
+  | stop => have := sameHist_stop hs; exact full_congr h this.2.2.2.2.2.2.1 this.2.2.2.2.2.2.2
+  | main => have := sameHist_main hs; exact full_congr h this.2.2.2.2.2.2.1 this.2.2.2.2.2.2.2
+  | cb r => have := sameHist_cb hs; exact full_congr h this.2.2.2.2.2.2.1 this.2.2.2.2.2.2.2
+  | snd j => exact full_snd h hs
+  | sndTls j =>
+    simp only [step, stepSndTls] at hs
+    split at hs
+    · simp at hs
+    · split at hs
+      · injection hs with hs; subst hs; exact full_accept h j _ true
+      · simp at hs
+
+theorem full_reachable {c : Cfg} {n : Nat} {s : Sys} (h : Reachable c n s) : FullInv c s := by
+  induction h with
+  | init => exact full_init c n
+  | step l _ hs ih => exact full_step l ih hs
+
+end Proofs.Listener
+
+namespace Proofs.Listener
+
+/-! ### add_callback -/
+
+theorem foldl_add_nodup (regs acc : List Nat) (h : acc.Nodup) : (regs.foldl addCallback acc).Nodup := by
+  induction regs generalizing acc with
+  | nil => simpa
+  | cons f r ih =>
+    simp only [List.foldl_cons]
+    apply ih
+    unfold addCallback
+    split
+    · exact h
+    · rename_i hc
+      rw [List.nodup_append]
+      refine ⟨h, by simp, ?_⟩
+      intro a ha b hb
+      simp at hb; subst hb
+      intro e; subst e
+      exact hc (by simpa using ha)
+
+theorem foldl_add_mem (regs acc : List Nat) (f : Nat) :
+    f ∈ regs.foldl addCallback acc ↔ f ∈ acc ∨ f ∈ regs := by
+  induction regs generalizing acc with
+  | nil => simp
+  | cons g r ih =>
+    simp only [List.foldl_cons, ih]
+    unfold addCallback
+    split
+    · rename_i hc
+      have hg : g ∈ acc := by simpa using hc
+      constructor
+      · rintro (h | h)
+        · exact Or.inl h
+        · exact Or.inr (List.mem_cons_of_mem _ h)
+      · rintro (h | h)
+        · exact Or.inl h
+        · rcases List.mem_cons.mp h with e | e
+          · subst e; exact Or.inl hg
+          · exact Or.inr e
+    · simp only [List.mem_append, List.mem_cons, List.not_mem_nil, or_false]
+      constructor
+      · rintro ((h | h) | h)
+        · exact Or.inl h
+        · exact Or.inr (Or.inl h)
+        · exact Or.inr (Or.inr h)
+      · rintro (h | h | h)
+        · exact Or.inl (Or.inl h)
+        · exact Or.inl (Or.inr h)
+        · exact Or.inr h
+
+/-- registering callbacks that are all known already changes nothing -/
+theorem foldl_add_known (more acc : List Nat) (h : ∀ f ∈ more, f ∈ acc) : more.foldl addCallback acc = acc := by
+  induction more with
+  | nil => rfl
+  | cons g r ih =>
+    have hg : g ∈ acc := h g (List.mem_cons_self)
+    have : addCallback acc g = acc := by simp [addCallback, hg]
+    simp only [List.foldl_cons, this]
+    exact ih (fun f hf => h f (List.mem_cons_of_mem _ hf))
+
+/-- the registered list is `acc` followed by a sub-sequence of the registrations -/
+theorem foldl_add_sublist (regs acc : List Nat) :
+    ∃ t, regs.foldl addCallback acc = acc ++ t ∧ t.Sublist regs := by
+  induction regs generalizing acc with
+  | nil => exact ⟨[], by simp, List.Sublist.refl _⟩
+  | cons g r ih =>
+    simp only [List.foldl_cons]
+    by_cases hc : g ∈ acc
+    · have : addCallback acc g = acc := by simp [addCallback, hc]
+      rw [this]
+      obtain ⟨t, h1, h2⟩ := ih acc
+      exact ⟨t, h1, List.Sublist.cons _ h2⟩
+    · have : addCallback acc g = acc ++ [g] := by simp [addCallback, hc]
+      rw [this]
+      obtain ⟨t, h1, h2⟩ := ih (acc ++ [g])
+      exact ⟨g :: t, by rw [h1]; simp, List.Sublist.cons_cons _ h2⟩
 
 
 end Proofs.Listener
